@@ -542,6 +542,32 @@ def check_nothing_dropped(eng, run):
     run.floor("C16.fifo datagram-server functions taking a datagram out of a queue", n, 2)
 
 
+def check_listener_errors_only_logged(eng, run, rule="C16.iso"):
+    """an asynchronous socket error reported to the *listening* UDP socket (`error_received`: the ICMP bounce of one vanished peer)
+    concerns nobody in particular: the listener protocol only logs it.  It stores nothing on the object and completes no future -
+    otherwise the error of one peer ends serve() for everybody, or is raised in whichever client sends next."""
+    n = 0
+    for fn in eng.db.all_functions():
+        if fn.name != "error_received" or fn.cls is None or isinstance(fn.node, ast.Lambda) or "listener" not in fn.module.name:
+            continue
+        n += 1
+        effects = []
+        for x in own_nodes(fn.node):
+            if isinstance(x, (ast.Assign, ast.AugAssign, ast.AnnAssign)):
+                tg = x.targets if isinstance(x, ast.Assign) else [x.target]
+                if any(isinstance(t, (ast.Attribute, ast.Subscript)) and (dotted(t.value if isinstance(t, ast.Attribute) else t.value) or "").split(".")[0] == fn.self_name for t in tg):
+                    effects.append(x)
+            if isinstance(x, ast.Call) and isinstance(x.func, ast.Attribute) and x.func.attr in ("set_exception", "set_result", "cancel", "set", "append", "appendleft", "put_nowait", "close", "abort", "call_soon"):
+                effects.append(x)
+            if isinstance(x, ast.Raise):
+                effects.append(x)
+        for e in effects[:1]:
+            run.finding(rule, fn, e if isinstance(e, ast.stmt) else fn.node, f"error_received() of the datagram listener does more than log (`{ast.unparse(e)[:60]}`): an error caused by one peer (an ICMP bounce) "
+                        "stops the dispatch for every client or is raised in another client's send")
+        run.ob(rule, f"{fn.cls.name}.error_received:only-logs", not effects)
+    run.floor(f"{rule} datagram listener error callbacks", n, 1)
+
+
 def run(eng, run):
     from sa.anchors import verify as _verify_anchor_names
     _verify_anchor_names(eng, run)
@@ -550,6 +576,7 @@ def run(eng, run):
     run.attempt(check_single_and_atomic, eng, run)
     run.attempt(check_fifo, eng, run)
     run.attempt(check_handler_passthrough, eng, run)
+    run.attempt(check_listener_errors_only_logged, eng, run)
     run.attempt(check_trio_listener, eng, run)
     from sa.analyses.sharing import check_unbounded_queues
     from sa.report import RuleAlias as _RA16
